@@ -15,7 +15,7 @@ open TraitsVerif TraitsVerif.Model.Obs TraitsVerif.Proto
 
 def names : List String :=
   ["value", "mate", "child", "kids", "byname", "group", "trait_added", "trait_modified",
-   "extra", "xchild", "items", "nosuch", "ichild", "nchild"]
+   "extra", "xchild", "items", "nosuch", "ichild", "nchild", "tkids"]
 
 def nameOf (n : Name) : String := names.getD n s!"n{n}"
 def name? (s : String) : Option Name := names.findIdx? (· == s)
@@ -96,7 +96,9 @@ def parseOp (s : String) : Option Op :=
     pure (.mut [.read (← nat? o) (← name? f) c] [c])
   | ["addt", o, f, tg] => do
     let f ← name? f
-    pure (.mut [.addTrait (← nat? o) f (← bool? tg) (if f == nExtra then .val (.int 0) else .val .none)] [])
+    -- tag codes: 0 no metadata, 1 True, 2 False, 3 0, 4 "", 5 "x", 6 None; matched iff not None
+    let tg ← nat? tg
+    pure (.mut [.addTrait (← nat? o) f (tg != 0 && tg != 6) (if f == nExtra then .val (.int 0) else .val .none)] [])
   | ["la", c, x] => do pure (.mut [.listAppend (← nat? c) (← nat? x)] [])
   | ["li", c, i, x] => do pure (.mut [.listInsert (← nat? c) (← nat? i) (← nat? x)] [])
   | ["ld", c, i] => do pure (.mut [.listDel (← nat? c) (← nat? i)] [])
@@ -130,11 +132,14 @@ def showIds (l : List Nat) : String := "[" ++ ",".intercalate (l.map toString) +
 def showKvs (l : List (Nat × Nat)) : String :=
   "[" ++ ",".intercalate (l.map (fun kv => s!"{kv.1}:{kv.2}")) ++ "]"
 
+/-- A handler key `10 + h` stands for handler `h` registered through
+`traits.observation.api.observe(…, dispatcher=queue.dispatch)`: the dispatcher is part of
+the notifiers' `equals`, so it is a different key; the user's callable is the same. -/
 def showDelivered : Delivered → String
-  | .trait k o n old new => s!"{k.handler}@{o}.{nameOf n}:{showVal old}>{showVal new}"
-  | .list k c i r a => s!"{k.handler}@L{c}:{i}-{showIds r}+{showIds a}"
-  | .dict k c r a => s!"{k.handler}@D{c}:-{showKvs r}+{showKvs a}"
-  | .set k c r a => s!"{k.handler}@S{c}:-{showIds r}+{showIds a}"
+  | .trait k o n old new => s!"{k.handler % 10}@{o}.{nameOf n}:{showVal old}>{showVal new}"
+  | .list k c i r a => s!"{k.handler % 10}@L{c}:{i}-{showIds r}+{showIds a}"
+  | .dict k c r a => s!"{k.handler % 10}@D{c}:-{showKvs r}+{showKvs a}"
+  | .set k c r a => s!"{k.handler % 10}@S{c}:-{showIds r}+{showIds a}"
 
 def sortStrs (l : List String) : List String := l.mergeSort (fun a b => decide (a ≤ b))
 
@@ -166,7 +171,8 @@ structure DSt where
   deadH : List Nat
 
 def DSt.env (d : DSt) : Env :=
-  { deadH := fun x => d.deadH.contains x
+  { -- handler keys >= 10 are the same handler (key - 10) registered with another dispatcher
+    deadH := fun x => d.deadH.contains (x % 10)
     eqo := fun i j => match d.cls[i]?, d.cls[j]? with
       | some a, some b => a == b
       | _, _ => false }
@@ -253,7 +259,7 @@ def stepOp (d : DSt) (op : Op) : DSt × String :=
 
 def initFields (childDflt : Val) : List Field :=
   [⟨0, false, .val (.int 0), .unset, .equality⟩,
-   ⟨1, true, .val .none, .unset, .equality⟩,
+   ⟨1, true, .val childDflt, .unset, .equality⟩,      -- mate: tag=True, same dynamic default as child
    ⟨2, false, .val childDflt, .unset, .equality⟩,
    ⟨3, false, .newList, .unset, .equality⟩,
    ⟨4, false, .newDict, .unset, .equality⟩,
@@ -261,6 +267,8 @@ def initFields (childDflt : Val) : List Field :=
    -- Instance(HasTraits, comparison_mode=identity / none)
    ⟨12, false, .val .none, .unset, .identity⟩,
    ⟨13, false, .val .none, .unset, .none⟩,
+   -- tkids = List(Instance, tag=False): the metadata is defined (falsy, not None), so `+tag` matches
+   ⟨14, true, .newList, .unset, .equality⟩,
    ⟨6, false, .val .undef, .unset, .equality⟩,
    ⟨7, false, .val .undef, .unset, .equality⟩]
 
